@@ -1860,7 +1860,9 @@ foamToSExpr0(Foam foam)
 	argf  = foamInfo(foamTag(foam)).argf;
 	sx    = sxCons(foamSExpr(foamTag(foam)), sx);
 
-	isDecl = foamTag(foam) == FOAM_Decl || foamTag(foam) == FOAM_GDecl;
+	/* Only a Decl's third operand is a symbol-meaning number (local to one
+	 * compilation); a GDecl has its return type there, which must be kept. */
+	isDecl = foamTag(foam) == FOAM_Decl;
 
 	for (si = fi = 0; si < foamArgc(foam); si++, fi++) {
 		if (argf[fi] == '*') fi--;
